@@ -2,6 +2,7 @@ package main
 
 import (
 	"fmt"
+	"go/token"
 	"go/types"
 	"strings"
 
@@ -190,6 +191,13 @@ func ruleC16R3(w *World, r *Report) {
 				if _, isDefer := c.(*ssa.Defer); isDefer {
 					r.OK("C16.R3", key, w.instrPos(c), "deferred Close of a response body")
 					continue
+				}
+				// explicit Close of an HTTP response body that was read (the data is already in memory)
+				if base, fname, ok := fieldAddrOf(stripLoad(cc.Value)); ok && fname == "Body" {
+					if strings.HasSuffix(base.Type().String(), "net/http.Response") {
+						r.OK("C16.R3", key, w.instrPos(c), "Close of an HTTP response body")
+						continue
+					}
 				}
 			}
 			if sc != nil {
@@ -460,4 +468,12 @@ func errorClassifiedBefore(x ssa.Value, test, head *ssa.BasicBlock, ret *ssa.Ret
 		}
 	}
 	return false
+}
+
+// stripLoad: the address a value was loaded from (v itself when it is not a load).
+func stripLoad(v ssa.Value) ssa.Value {
+	if u, ok := v.(*ssa.UnOp); ok && u.Op == token.MUL {
+		return u.X
+	}
+	return v
 }
